@@ -61,21 +61,29 @@ def _list_slice(slize: Slice) -> List[Slice]:
     """Internal recursive helper for `resolve_slice`.
     Returns a list of Slices in which each element has a concrete Signal for its parent."""
 
-    # Resolve "full-width" slices to their parent Signals
-    if width(slize) == width(slize.parent):
+    # Resolve "full-width" (and same-order) slices to their parent Signals
+    if width(slize) == width(slize.parent) and slize.step == 1:
         # Return a single-element list, after resolution
         return [_resolve_sliceable(slize.parent)]
 
-    if isinstance(slize.parent, Signal):
+    if isinstance(slize.parent, Signal) and slize.step == 1:
         return [slize]  # Already all good! Just make a one-element list.
 
     # Do some actual work. Recursively peel off a bit at a time.
     if width(slize) == 1:
         # Base case: slice is one-bit wide. Reach into the parent signal and grab that bit.
 
+        if isinstance(slize.parent, Signal):
+            return [slize]
+
         if isinstance(slize.parent, Slice):
             parent = slize.parent  # Note this is also a Slice
-            return _list_slice(parent.parent[parent.bot + slize.bot])
+            # Index, in the grandparent, of the parent's `slize.bot`-th selected bit
+            if parent.step > 0:
+                idx = parent.bot + slize.bot * parent.step
+            else:
+                idx = parent.top - 1 + slize.bot * parent.step
+            return _list_slice(parent.parent[idx])
 
         if isinstance(slize.parent, Concat):
             idx = 0  # Find the `part` including our index
@@ -88,18 +96,17 @@ def _list_slice(slize: Slice) -> List[Slice]:
 
         raise TypeError(f"Invalid attempt to resolve slicing on {slize}")
 
-    # Otherwise recurse in something like a "cons" pattern, splitting between the first bit and the rest.
+    # Otherwise resolve each selected bit of the parent, in selection order
     step = slize.step
-    if step < 0:  # Negative step, begin from `top`
-        first = _list_slice(slize.parent[slize.top])
-        rest = slize.parent[slize.top + step : slize.bot : step]
-        rest = _list_slice(rest)
-
+    if step < 0:  # Negative step, begin from the highest index
+        indices = range(slize.top - 1, slize.bot - 1, step)
     else:  # Positive step, begin from `bot`
-        first = _list_slice(slize.parent[slize.bot])
-        rest = _list_slice(slize.parent[slize.bot + step : slize.top : step])
+        indices = range(slize.bot, slize.top, step)
 
-    return first + rest
+    bits = []
+    for idx in indices:
+        bits.extend(_list_slice(slize.parent[idx]))
+    return bits
 
 
 def _resolve_slice(slize: Slice) -> Sliceable:
